@@ -80,4 +80,26 @@ theorem C10_even_scale (scale : Int) (e0 : Nat) :
     (scale + ((if (scale + (e0 : Int)) % 2 ≠ 0 then e0 + 1 else e0 : Nat) : Int)) % 2 = 0 := by
   split <;> push_cast <;> omega
 
+/-- **composition**: whatever `impl_sqrt` returns is the declarative precision rounding
+    (`Spec.roundToPrec`, proved for `with_precision_round` in C07) of the floor root of the shifted
+    integer, extended by the sticky digit `1` when that root is inexact.  Together with `C10_sticky`
+    (the sticky-extended root lies on the same side of every rounding boundary as the real root) and
+    `C10_even_scale` this is "the true root rounded as the context dictates". -/
+theorem C10_implSqrt_spec (n : Nat) (scale : Int) (p : Nat) (m : Mode) (r : Dec)
+    (h : implSqrt n scale p m = some r) :
+    let e0 := 2 * (p + sqrtExtraDigits) - numDigits n
+    let e := if (scale + e0) % 2 ≠ 0 then e0 + 1 else e0
+    let D := n * 10 ^ e
+    let rs : Int := (scale + e) / 2
+    r = Spec.roundToPrec
+        (if Nat.sqrt D * Nat.sqrt D ≠ D then ⟨((Nat.sqrt D * 10 + 1 : Nat) : Int), rs + 1⟩ else ⟨(Nat.sqrt D : Int), rs⟩) p m := by
+  intro e0 e D rs
+  have hx : implSqrt n scale p m =
+      (if Nat.sqrt D * Nat.sqrt D ≠ D then (⟨((Nat.sqrt D * 10 + 1 : Nat) : Int), rs + 1⟩ : Dec)
+        else ⟨(Nat.sqrt D : Int), rs⟩).withPrecisionRound p m := by
+    rw [apply_ite (fun d : Dec => d.withPrecisionRound p m)]
+    rfl
+  rw [hx] at h
+  exact withPrecisionRound_spec _ _ _ _ h
+
 end BigDec
